@@ -358,6 +358,23 @@ fn violation_strategy() -> impl Strategy<Value = Input> {
                 Doc::Aiger(a) => {
                     let m = a.aig.max_var_index;
                     let used = a.aig.input_count + a.aig.latches.len() as u64 + a.aig.ands.len() as u64;
+                    // sections of the file and how many entries each has
+                    let counts: [(char, usize); 7] = [
+                        ('i', a.aig.input_count as usize),
+                        ('l', a.aig.latches.len()),
+                        ('o', a.aig.outputs.len()),
+                        ('b', a.aig.bad.len()),
+                        ('c', a.aig.constraints.len()),
+                        ('j', a.aig.justice.len()),
+                        ('f', a.aig.fairness.len()),
+                    ];
+                    let empty: Vec<char> = counts.iter().filter(|(_, n)| *n == 0).map(|(c, _)| *c).collect();
+                    if kind >= 5 && !empty.is_empty() {
+                        // a symbol for entry 0 of a section that has no entries
+                        let ch = empty[(pick as usize * empty.len()) >> 16];
+                        a.aig.symbols.push((ch, 0, "name".into()));
+                        class = "violation/symbol-for-empty-section".into();
+                    } else {
                     match kind % 5 {
                         0 if !a.aig.outputs.is_empty() && m < u64::MAX / 2 - 2 => {
                             let i = (pick as usize * a.aig.outputs.len()) >> 16;
@@ -389,6 +406,7 @@ fn violation_strategy() -> impl Strategy<Value = Input> {
                             class = "violation/binary-delta-above-code".into();
                         }
                         _ => {}
+                    }
                     }
                 }
                 _ => {}
